@@ -32,7 +32,7 @@ Regs0 == [A |-> 10, F |-> 85, B |-> 17, C |-> 34, D |-> 51, E |-> 68, H |-> 64, 
           IXH |-> 80, IXL |-> 32, IYH |-> 96, IYL |-> 48, SP |-> 32768, PC |-> 256, I |-> 0, R |-> 10,
           IFF1 |-> FALSE, IFF2 |-> FALSE, IM |-> 0]
 Ctx0 == [r |-> Regs0, m |-> <<>>, dev |-> [mk |-> "hash", seed |-> 11, val |-> 0, len |-> 65536],
-         io |-> [ik |-> "hash", seed |-> 3, len |-> 0], iom |-> <<>>, nin |-> 0, rd |-> <<>>, wr |-> <<>>, pio |-> <<>>,
+         io |-> [ik |-> "hash", seed |-> 3, len |-> 0], iom |-> <<>>, nin |-> 0, seen |-> <<>>, rd |-> <<>>, wr |-> <<>>, pio |-> <<>>,
          halt |-> FALSE, hc |-> <<0, 0>>, ovl |-> NoOvl, v |-> 0, u |-> 0, ralt |-> FALSE, tag |-> "",
          pend |-> None, aei |-> FALSE, rslack |-> 0]
 
